@@ -6,6 +6,7 @@ import Golib.Proto
 import Golib.Model.C08Pad
 import Golib.Model.C08Aes
 import Golib.Model.C08Gcm
+import Golib.Model.C08Arena
 
 namespace Golib.C08
 open Golib.Proto
@@ -101,6 +102,64 @@ def step (t : List String) : String :=
       | some ("fresh", d) => showR hex (aesGCMDecrypt aesGCM (fill (resize n d)) ct key nonce ad)
       | some ("inplace", 0) => showR hex (aesGCMDecrypt aesGCM (ct.take n) ct key nonce ad)
       | _ => "bad-op"
+    | _, _, _, _ => "bad-op"
+  -- BUFFER-LEVEL ops: answered by the ARENA model (`C08Arena.lean`), not the value-level one
+  | ["padcap", d, b, extra] => match unhex d, b.toInt?, extra.toNat? with
+    -- PKCS7Padding on a slice with `extra` bytes of spare capacity (canaries 0xEE behind the data):
+    -- result, what the spare capacity holds afterwards, whether the result aliases the input
+    | some d, some b, some extra =>
+      let m : Arena.Mem := { cells := d ++ List.replicate extra 0xEE, log := [] }
+      let w : Arena.Win := { off := 0, len := d.length, cap := d.length + extra }
+      match Arena.pkcs7PaddingA m w b with
+      | (m', .ok sl) =>
+        "ok " ++ hex (sl.content m') ++ " spare=" ++ hex (m'.cells.drop d.length) ++
+          (match sl with | .inArena _ => " alias=1" | .fresh _ => " alias=0")
+      | (_, .err e) => "err:" ++ e
+      | (_, .panic) => "panic"
+    | _, _, _ => "bad-op"
+  | ["cbcdecleft", lay, key, iv, ct] => match unhex key, unhex iv, unhex ct with
+    -- AESCBCDecrypt, and what `dst` holds afterwards WHATEVER the outcome
+    | some key, some iv, some ct =>
+      let n := ct.length
+      let showO : R Int → String := fun r => match r with
+        | .ok k => "ok " ++ toString k | .err e => "err:" ++ e | .panic => "panic"
+      if lay = "fresh" then
+        let m : Arena.Mem := { cells := fill n ++ ct ++ key ++ iv, log := [] }
+        let dst : Arena.Win := { off := 0, len := n, cap := n }
+        let r := Arena.aesCBCDecryptA aesCipher m dst { off := n, len := n, cap := n }
+          { off := 2 * n, len := key.length, cap := key.length } { off := 2 * n + key.length, len := iv.length, cap := iv.length }
+        (match r.2 with | .panic => "panic" | o => showO o ++ " dst=" ++ hex (r.1.rd dst))
+      else if lay = "inplace" then
+        let m : Arena.Mem := { cells := ct ++ key ++ iv, log := [] }
+        let dst : Arena.Win := { off := 0, len := n, cap := n }
+        let r := Arena.aesCBCDecryptA aesCipher m dst dst
+          { off := n, len := key.length, cap := key.length } { off := n + key.length, len := iv.length, cap := iv.length }
+        (match r.2 with | .panic => "panic" | o => showO o ++ " dst=" ++ hex (r.1.rd dst))
+      else "bad-op"
+    | _, _, _ => "bad-op"
+  | ["gcmdecleft", lay, key, nonce, ad, ct] => match unhex key, unhex nonce, unhex ad, unhex ct with
+    | some key, some nonce, some ad, some ct =>
+      let n := (gcmDecryptLen ct.length).toNat
+      let c := ct.length
+      let showO : R Unit → String := fun r => match r with
+        | .ok _ => "ok" | .err e => "err:" ++ e | .panic => "panic"
+      if lay = "fresh" then
+        let m : Arena.Mem := { cells := fill n ++ ct ++ key ++ nonce ++ ad, log := [] }
+        let dst : Arena.Win := { off := 0, len := n, cap := n }
+        let r := Arena.aesGCMDecryptA aesGCM m dst { off := n, len := c, cap := c }
+          { off := n + c, len := key.length, cap := key.length }
+          { off := n + c + key.length, len := nonce.length, cap := nonce.length }
+          { off := n + c + key.length + nonce.length, len := ad.length, cap := ad.length }
+        (match r.2 with | .panic => "panic" | o => showO o ++ " dst=" ++ hex (r.1.rd dst))
+      else if lay = "inplace" then
+        let m : Arena.Mem := { cells := ct ++ key ++ nonce ++ ad, log := [] }
+        let dst : Arena.Win := { off := 0, len := n, cap := c }
+        let r := Arena.aesGCMDecryptA aesGCM m dst { off := 0, len := c, cap := c }
+          { off := c, len := key.length, cap := key.length }
+          { off := c + key.length, len := nonce.length, cap := nonce.length }
+          { off := c + key.length + nonce.length, len := ad.length, cap := ad.length }
+        (match r.2 with | .panic => "panic" | o => showO o ++ " dst=" ++ hex (r.1.rd dst))
+      else "bad-op"
     | _, _, _, _ => "bad-op"
   | _ => "bad-op"
 
